@@ -3,6 +3,7 @@ package kvgraph
 import (
 	"bytes"
 	"fmt"
+	"strings"
 
 	"github.com/bmeg/grip/gdbi"
 	"github.com/bmeg/grip/gripql"
@@ -26,6 +27,11 @@ func (kgraph *KVGraph) AddGraph(graph string) error {
 
 // DeleteGraph deletes `graph`
 func (kgraph *KVGraph) DeleteGraph(graph string) error {
+	// no graph has the key separator in its name; the prefixes below would address
+	// elements of another graph
+	if strings.Contains(graph, "\x00") {
+		return fmt.Errorf("graph '%s' was not found", graph)
+	}
 	kgraph.ts.Touch(graph)
 
 	// the graph key goes first: once it is gone the graph is no longer listed, so a crash
